@@ -690,7 +690,9 @@ func c37SignerInfoWithDigest(digest []byte, sid *x509.Certificate, key *ecdsa.Pr
 		return si, err
 	}
 	attrs := []protocol.Attribute{st, md, ct}
-	sort.Slice(attrs, func(i, j int) bool { return bytes.Compare(attrs[i].RawValue.FullBytes, attrs[j].RawValue.FullBytes) < 0 })
+	sort.Slice(attrs, func(i, j int) bool {
+		return bytes.Compare(attrs[i].RawValue.FullBytes, attrs[j].RawValue.FullBytes) < 0
+	})
 	si.SignedAttrs = attrs
 	sm, err := si.SignedAttrs.MarshaledForSigning()
 	if err != nil {
